@@ -11,32 +11,6 @@ namespace SaModel.Build
 open SaModel SaModel.Spec
 open SaModel.Lemmas.C03 (ViewSmall ViewSmallL)
 
-mutual
-/-- the value contains no raw `serialize_key`/`serialize_value` call stream -/
-def noRaw : SVal → Bool
-  | .some v => noRaw v
-  | .newtypeStruct _ v => noRaw v
-  | .seq xs => noRaws xs
-  | .tuple xs => noRaws xs
-  | .tupleStruct _ xs => noRaws xs
-  | .record _ fs => noRawf fs
-  | .map es => noRawe es
-  | .mapRaw _ => false
-  | .newtypeVariant _ _ _ v => noRaw v
-  | .tupleVariant _ _ _ xs => noRaws xs
-  | .structVariant _ _ _ fs => noRawf fs
-  | _ => true
-def noRaws : SVals → Bool
-  | .nil => true
-  | .cons v r => noRaw v && noRaws r
-def noRawf : SFields → Bool
-  | .nil => true
-  | .cons _ _ v r => noRaw v && noRawf r
-def noRawe : SEntries → Bool
-  | .nil => true
-  | .cons k v r => noRaw k && noRaw v && noRawe r
-end
-
 /-! ### names -/
 
 theorem key_at {names : List String} {key fname : String} {idx j : Nat} (hnd : names.Nodup)
@@ -230,28 +204,28 @@ theorem indexOfName_lt' {names : List String} {key : String} {i : Nat} (h : inde
   · exact h'
   · rw [List.getElem?_eq_none_iff.mpr h'] at this; cases this
 
-theorem TupleSpec.of {ext : Ext} {xs : SVals} {pt : SS → R SS} (hraw : ssaS xs = true)
-    (h : ∀ (fs0 : BL) (s s' : SS) (adds adds' : List (List LVal)) (sfs : Fields), ssaS xs = true → narrowFs sfs = true → Mid fs0 s adds →
+theorem TupleSpec.of {ext : Ext} {nar : Bool} {xs : SVals} {pt : SS → R SS} (hraw : rawOKs nar xs = true)
+    (h : ∀ (fs0 : BL) (s s' : SS) (adds adds' : List (List LVal)) (sfs : Fields), rawOKs nar xs = true → (nar = true → narrowFs sfs = true) → Mid fs0 s adds →
       Mid fs0 s' adds' → ShapeL s.fields sfs → pt s = .ok s' → ViewSmallL s'.fields →
       ∀ j f, sfs.toList[j]? = some f → (j < s.next → adds'.getD j [] = adds.getD j []) ∧
         (s.next ≤ j → ∃ found, interpNth ext f.dataType f.nullable f.metadata (j - s.next) xs = .ok found ∧
-          adds'.getD j [] = adds.getD j [] ++ found)) : TupleSpec ext xs pt := by
+          adds'.getD j [] = adds.getD j [] ++ found)) : TupleSpec ext (nar = true) xs pt := by
   intro fs0 s s' adds adds' sfs hnf hm hm' hsl hn0 hp hsm j f hj
   obtain ⟨_, h2⟩ := h fs0 s s' adds adds' sfs hraw hnf hm hm' hsl hp hsm j f hj
   rw [hn0] at h2
   simpa using h2 (Nat.zero_le _)
 
 mutual
-theorem push_interp (ext : Ext) : ∀ (x : SVal) (b b' : B) (dt : DataType) (n : Bool) (md : Metadata) (lv : LVal),
-    structStreamsAlternate x = true → narrowDT dt = true → WFB b → Safe b → Shape b dt n md → push ext b x = .ok b' →
+theorem push_interp (ext : Ext) (nar : Bool) : ∀ (x : SVal) (b b' : B) (dt : DataType) (n : Bool) (md : Metadata) (lv : LVal),
+    rawOK nar x = true → (nar = true → narrowDT dt = true) → WFB b → Safe b → Shape b dt n md → push ext b x = .ok b' →
     dec b' = dec b ++ [lv] →
     ViewSmall b' → interpDT ext dt n md x = .ok lv
   | .some v, b, b', dt, n, md, lv, hraw, hnar, hwf, hs, hsh, h, hd, hsm => by
     rw [push] at h; rw [interpDT]
-    exact push_interp ext v b b' dt n md lv (by simpa [structStreamsAlternate] using hraw) hnar hwf hs hsh h hd hsm
+    exact push_interp ext nar v b b' dt n md lv (by simpa only [rawOK_some, rawOK_newtypeStruct, rawOK_newtypeVariant, rawOK_seq, rawOK_tuple, rawOK_tupleStruct, rawOK_tupleVariant, rawOK_record, rawOK_structVariant, rawOK_map, rawOK_mapRaw, rawOKs_cons, rawOKf_cons, rawOKe_cons, Bool.and_eq_true] using hraw) hnar hwf hs hsh h hd hsm
   | .newtypeStruct _ v, b, b', dt, n, md, lv, hraw, hnar, hwf, hs, hsh, h, hd, hsm => by
     rw [push] at h; rw [interpDT]
-    exact push_interp ext v b b' dt n md lv (by simpa [structStreamsAlternate] using hraw) hnar hwf hs hsh h hd hsm
+    exact push_interp ext nar v b b' dt n md lv (by simpa only [rawOK_some, rawOK_newtypeStruct, rawOK_newtypeVariant, rawOK_seq, rawOK_tuple, rawOK_tupleStruct, rawOK_tupleVariant, rawOK_record, rawOK_structVariant, rawOK_map, rawOK_mapRaw, rawOKs_cons, rawOKf_cons, rawOKe_cons, Bool.and_eq_true] using hraw) hnar hwf hs hsh h hd hsm
   | .none, b, b', dt, n, md, lv, _, hnar, hwf, hs, hsh, h, hd, _ => by
     rw [push] at h; rw [interpDT]
     have := row_unique hd (pushNone_appends b b' hwf hs h).2
@@ -268,27 +242,27 @@ theorem push_interp (ext : Ext) : ∀ (x : SVal) (b b' : B) (dt : DataType) (n :
       exact pushNone_interp _ b' dt n md hsh h
   | .seq xs, b, b', dt, n, md, lv, hraw, hnar, hwf, hs, hsh, h, hd, hsm => by
     rw [push, ctx_ok] at h; rw [interpDT_seq]
-    have hraw' : ssaS xs = true := by simpa [structStreamsAlternate] using hraw
+    have hraw' : rawOKs nar xs = true := by simpa only [rawOK_some, rawOK_newtypeStruct, rawOK_newtypeVariant, rawOK_seq, rawOK_tuple, rawOK_tupleStruct, rawOK_tupleVariant, rawOK_record, rawOK_structVariant, rawOK_map, rawOK_mapRaw, rawOKs_cons, rawOKf_cons, rawOKe_cons, Bool.and_eq_true] using hraw
     exact seqLike_interp (pushElems_appends ext xs) (pushCountElems_appends ext xs)
       (pushTupleElems_appends ext xs) (fun s1 s2 hp => pushTupleElems_takeRest ext xs s1 s2 hp)
-      (pushElems_interp ext xs hraw') (pushCountElems_interp ext xs hraw') (TupleSpec.of hraw' (pushTupleElems_interp ext xs))
+      (pushElems_interp ext nar xs hraw') (pushCountElems_interp ext nar xs hraw') (TupleSpec.of hraw' (pushTupleElems_interp ext nar xs))
       b _ b' dt n md lv hnar hwf hs hsh h hd hsm
   | .tuple xs, b, b', dt, n, md, lv, hraw, hnar, hwf, hs, hsh, h, hd, hsm => by
     rw [push, ctx_ok] at h; rw [interpDT_tuple]
-    have hraw' : ssaS xs = true := by simpa [structStreamsAlternate] using hraw
+    have hraw' : rawOKs nar xs = true := by simpa only [rawOK_some, rawOK_newtypeStruct, rawOK_newtypeVariant, rawOK_seq, rawOK_tuple, rawOK_tupleStruct, rawOK_tupleVariant, rawOK_record, rawOK_structVariant, rawOK_map, rawOK_mapRaw, rawOKs_cons, rawOKf_cons, rawOKe_cons, Bool.and_eq_true] using hraw
     exact seqLike_interp (pushElems_appends ext xs) (pushCountElems_appends ext xs)
       (pushTupleElems_appends ext xs) (fun s1 s2 hp => pushTupleElems_takeRest ext xs s1 s2 hp)
-      (pushElems_interp ext xs hraw') (pushCountElems_interp ext xs hraw') (TupleSpec.of hraw' (pushTupleElems_interp ext xs))
+      (pushElems_interp ext nar xs hraw') (pushCountElems_interp ext nar xs hraw') (TupleSpec.of hraw' (pushTupleElems_interp ext nar xs))
       b _ b' dt n md lv hnar hwf hs hsh h hd hsm
   | .tupleStruct _ xs, b, b', dt, n, md, lv, hraw, hnar, hwf, hs, hsh, h, hd, hsm => by
     rw [push, ctx_ok] at h; rw [interpDT_tupleStruct]
-    have hraw' : ssaS xs = true := by simpa [structStreamsAlternate] using hraw
+    have hraw' : rawOKs nar xs = true := by simpa only [rawOK_some, rawOK_newtypeStruct, rawOK_newtypeVariant, rawOK_seq, rawOK_tuple, rawOK_tupleStruct, rawOK_tupleVariant, rawOK_record, rawOK_structVariant, rawOK_map, rawOK_mapRaw, rawOKs_cons, rawOKf_cons, rawOKe_cons, Bool.and_eq_true] using hraw
     exact seqLike_interp (pushElems_appends ext xs) (pushCountElems_appends ext xs)
       (pushTupleElems_appends ext xs) (fun s1 s2 hp => pushTupleElems_takeRest ext xs s1 s2 hp)
-      (pushElems_interp ext xs hraw') (pushCountElems_interp ext xs hraw') (TupleSpec.of hraw' (pushTupleElems_interp ext xs))
+      (pushElems_interp ext nar xs hraw') (pushCountElems_interp ext nar xs hraw') (TupleSpec.of hraw' (pushTupleElems_interp ext nar xs))
       b _ b' dt n md lv hnar hwf hs hsh h hd hsm
   | .record _ fields, b, b', dt, n, md, lv, hraw, hnar, hwf, hs, hsh, h, hd, hsm => by
-    have hraw' : ssaF fields = true := by simpa [structStreamsAlternate] using hraw
+    have hraw' : rawOKf nar fields = true := by simpa only [rawOK_some, rawOK_newtypeStruct, rawOK_newtypeVariant, rawOK_seq, rawOK_tuple, rawOK_tupleStruct, rawOK_tupleVariant, rawOK_record, rawOK_structVariant, rawOK_map, rawOK_mapRaw, rawOKs_cons, rawOKf_cons, rawOKe_cons, Bool.and_eq_true] using hraw
     cases b with
     | struct p len v fs cached next seen =>
       simp only [push, ctx_ok, recordWith] at h
@@ -298,13 +272,13 @@ theorem push_interp (ext : Ext) : ∀ (x : SVal) (b b' : B) (dt : DataType) (n :
       refine struct_interp _ hwf hs hsl (pushFields_appends ext fields)
         (fun s1 s2 hp => pushFields_takeRest ext fields s1 s2 hp) ?_ h hd hsm
       intro s1 s2 adds2 _ hf1 hm1 hm2 hp hsm2 j f hj
-      obtain ⟨found, hf, ha⟩ := pushFields_interp ext fields fs s1 s2 _ adds2 sfs hraw'
-        (by simp only [narrowDT, Bool.and_eq_true] at hnar; exact hnar.2) hm1 hm2 (by rw [hf1]; exact hsl) hp hsm2 j f hj
+      obtain ⟨found, hf, ha⟩ := pushFields_interp ext nar fields fs s1 s2 _ adds2 sfs hraw'
+        (fun hn => by have hnar := hnar hn; simp only [narrowDT, Bool.and_eq_true] at hnar; exact hnar.2) hm1 hm2 (by rw [hf1]; exact hsl) hp hsm2 j f hj
       rw [getD_replicate_nil, List.nil_append] at ha
       exact ⟨found, hf, ha⟩
     | _ => simp [push, ctx_ok, recordWith, notSupported, fail] at h
   | .map es, b, b', dt, n, md, lv, hraw, hnar, hwf, hs, hsh, h, hd, hsm => by
-    have hraw' : ssaE es = true := by simpa [structStreamsAlternate] using hraw
+    have hraw' : rawOKe nar es = true := by simpa only [rawOK_some, rawOK_newtypeStruct, rawOK_newtypeVariant, rawOK_seq, rawOK_tuple, rawOK_tupleStruct, rawOK_tupleVariant, rawOK_record, rawOK_structVariant, rawOK_map, rawOK_mapRaw, rawOKs_cons, rawOKf_cons, rawOKe_cons, Bool.and_eq_true] using hraw
     cases b with
     | struct p len v fs cached next seen =>
       simp only [push, ctx_ok] at h
@@ -321,8 +295,8 @@ theorem push_interp (ext : Ext) : ∀ (x : SVal) (b b' : B) (dt : DataType) (n :
         ((pushStructEntries_appends ext es).next _)
         (FieldsSkel.next (fun s1 s2 hp => pushStructEntries_takeRest ext es s1 s2 hp) _) ?_ h hd hsm
       intro s1 s2 adds2 _ hf1 hm1 hm2 hp hsm2 j f hj
-      obtain ⟨found, hf, ha⟩ := pushStructEntries_interp ext es fs _ s2 _ adds2 sfs hraw'
-        (by simp only [narrowDT, Bool.and_eq_true] at hnar; exact hnar.2) (hm1.next UNKNOWN_KEY) hm2
+      obtain ⟨found, hf, ha⟩ := pushStructEntries_interp ext nar es fs _ s2 _ adds2 sfs hraw'
+        (fun hn => by have hnar := hnar hn; simp only [narrowDT, Bool.and_eq_true] at hnar; exact hnar.2) (hm1.next UNKNOWN_KEY) hm2
         (by simp only; rw [hf1]; exact hsl) hp hsm2 j f hj
       rw [getD_replicate_nil, List.nil_append] at ha
       exact ⟨found, hf, ha⟩
@@ -337,15 +311,18 @@ theorem push_interp (ext : Ext) : ∀ (x : SVal) (b b' : B) (dt : DataType) (n :
       have hw' := hwf
       simp only [WFB] at hw'
       simp only [Safe] at hs
-      have hnkv : narrowDT kdt = true ∧ narrowDT vdt = true := by
+      have hnkv : nar = true → narrowDT kdt = true ∧ narrowDT vdt = true := by
+        intro hn; have hnar := hnar hn
         simp only [narrowDT, narrowF, narrowFs, Bool.and_eq_true] at hnar; exact ⟨hnar.2.1, hnar.2.2.1⟩
-      have hi := pushMapEntries_interp ext es offs' ks vs r kdt knl kmd vdt vnl vmd lk lw hraw' hnkv.1 hnkv.2 hw'.2.2.2.1 hw'.2.2.2.2
+      have hi := pushMapEntries_interp ext nar es offs' ks vs r kdt knl kmd vdt vnl vmd lk lw hraw' (fun hn => (hnkv hn).1) (fun hn => (hnkv hn).2) hw'.2.2.2.1 hw'.2.2.2.2
         hs.1 hs.2 hsk hsv hpm hdk hdv (hsmr hsm)
       simp only [interpDT, isUnknownVariant, Bool.false_eq_true, if_false, hi]
       rfl
     | _ => simp [push, ctx_ok, notSupported, fail] at h
   | .mapRaw ops, b, b', dt, n, md, lv, hraw, hnar, hwf, hs, hsh, h, hd, hsm => by
-    have hraw' : ssaO ops = true := by simpa [structStreamsAlternate] using hraw
+    have hraw2 : nar = true ∧ ssaO ops = true := by simpa only [rawOK_mapRaw, Bool.and_eq_true] using hraw
+    obtain ⟨hn, hraw'⟩ := hraw2
+    have hnar := hnar hn
     have halt := ssaO_alternating ops hraw'
     cases b with
     | struct p len v fs cached next seen =>
@@ -364,7 +341,7 @@ theorem push_interp (ext : Ext) : ∀ (x : SVal) (b b' : B) (dt : DataType) (n :
         ((pushStructOps_appends ext ops).next _)
         (FieldsSkel.next (fun s1 s2 hp => pushStructOps_takeRest ext ops s1 s2 hp) _) ?_ h hd hsm
       intro s1 s2 adds2 _ hf1 hm1 hm2 hp hsm2 j f hj
-      obtain ⟨found, hf, ha⟩ := pushStructOps_interp ext ops fs _ s2 _ adds2 sfs hraw' hnar.2
+      obtain ⟨found, hf, ha⟩ := pushStructOps_interp ext nar ops fs _ s2 _ adds2 sfs hn hraw' hnar.2
         (by simp only; rw [hf1, ← hsl.length]; exact hnar.1) (hm1.next UNKNOWN_KEY) hm2
         (by simp only; rw [hf1]; exact hsl) hp hsm2 j f hj
       rw [getD_replicate_nil, List.nil_append] at ha
@@ -382,7 +359,7 @@ theorem push_interp (ext : Ext) : ∀ (x : SVal) (b b' : B) (dt : DataType) (n :
       simp only [Safe] at hs
       have hnkv : narrowDT kdt = true ∧ narrowDT vdt = true := by
         simp only [narrowDT, narrowF, narrowFs, Bool.and_eq_true] at hnar; exact ⟨hnar.2.1, hnar.2.2.1⟩
-      have hi := pushMapOps_interp ext ops offs' ks vs r kdt knl kmd vdt vnl vmd lk lw hraw' hnkv.1 hnkv.2 hw'.2.2.2.1 hw'.2.2.2.2
+      have hi := pushMapOps_interp ext nar ops offs' ks vs r kdt knl kmd vdt vnl vmd lk lw hn hraw' hnkv.1 hnkv.2 hw'.2.2.2.1 hw'.2.2.2.2
         hs.1 hs.2 hsk hsv hpm hdk hdv (hsmr hsm)
       simp only [interpDT, isUnknownVariant, Bool.false_eq_true, if_false, halt, Bool.not_true, hi]
       rfl
@@ -419,7 +396,7 @@ theorem push_interp (ext : Ext) : ∀ (x : SVal) (b b' : B) (dt : DataType) (n :
       rw [interpDT_unitVariant_scalar ext dt n md a i vn (pushScalar_scalarDT ext _ _ b' dt n md hsh h)]
       exact (pushScalar_interp ext _ _ b' dt n md lv hwf hsh h hd hsm).1
   | .newtypeVariant _ i _ v, b, b', dt, n, md, lv, hraw, hnar, hwf, hs, hsh, h, hd, hsm => by
-    have hraw' : structStreamsAlternate v = true := by simpa [structStreamsAlternate] using hraw
+    have hraw' : rawOK nar v = true := by simpa only [rawOK_some, rawOK_newtypeStruct, rawOK_newtypeVariant, rawOK_seq, rawOK_tuple, rawOK_tupleStruct, rawOK_tupleVariant, rawOK_record, rawOK_structVariant, rawOK_map, rawOK_mapRaw, rawOKs_cons, rawOKf_cons, rawOKe_cons, Bool.and_eq_true] using hraw
     cases b with
     | union p fs types offs cur =>
       simp only [push, ctx_ok] at h
@@ -431,7 +408,7 @@ theorem push_interp (ext : Ext) : ∀ (x : SVal) (b b' : B) (dt : DataType) (n :
       obtain ⟨ufs, mode, rfl, hsu⟩ := hsh
       obtain ⟨fname, fdt, fn, fmd, hufs, hshc⟩ := ShapeU.get fs ufs 0 i c m hsu hget
       try simp only [Nat.zero_add] at hufs
-      have := push_interp ext v c c' fdt fn fmd lvc hraw' (narrowU_get ufs i _ _ _ _ _ (by simpa [narrowDT] using hnar) hufs)
+      have := push_interp ext nar v c c' fdt fn fmd lvc hraw' (fun hn => narrowU_get ufs i _ _ _ _ _ (by simpa [narrowDT] using hnar hn) hufs)
         hwc hsc hshc hpc hdc (hsmc hsm)
       simp only [interpDT, hufs, this]
       rfl
@@ -439,7 +416,7 @@ theorem push_interp (ext : Ext) : ∀ (x : SVal) (b b' : B) (dt : DataType) (n :
     | bytesView _ ty _ _ _ => simp only [push, ctx_ok] at h; split at h <;> simp [notSupported, fail] at h
     | _ => simp [push, ctx_ok, notSupported, fail] at h
   | .tupleVariant _ i _ xs, b, b', dt, n, md, lv, hraw, hnar, hwf, hs, hsh, h, hd, hsm => by
-    have hraw' : ssaS xs = true := by simpa [structStreamsAlternate] using hraw
+    have hraw' : rawOKs nar xs = true := by simpa only [rawOK_some, rawOK_newtypeStruct, rawOK_newtypeVariant, rawOK_seq, rawOK_tuple, rawOK_tupleStruct, rawOK_tupleVariant, rawOK_record, rawOK_structVariant, rawOK_map, rawOK_mapRaw, rawOKs_cons, rawOKf_cons, rawOKe_cons, Bool.and_eq_true] using hraw
     cases b with
     | union p fs types offs cur =>
       simp only [push, ctx_ok] at h
@@ -463,14 +440,14 @@ theorem push_interp (ext : Ext) : ∀ (x : SVal) (b b' : B) (dt : DataType) (n :
       simp only [ctx_ok] at hpc
       have := seqLike_interp (pushElems_appends ext xs) (pushCountElems_appends ext xs)
         (pushTupleElems_appends ext xs) (fun s1 s2 hp => pushTupleElems_takeRest ext xs s1 s2 hp)
-        (pushElems_interp ext xs hraw') (pushCountElems_interp ext xs hraw') (TupleSpec.of hraw' (pushTupleElems_interp ext xs))
-        c _ c' fdt fn fmd lvc (narrowU_get ufs i _ _ _ _ _ (by simpa [narrowDT] using hnar) hufs) hwc hsc hshc hpc hdc (hsmc hsm)
+        (pushElems_interp ext nar xs hraw') (pushCountElems_interp ext nar xs hraw') (TupleSpec.of hraw' (pushTupleElems_interp ext nar xs))
+        c _ c' fdt fn fmd lvc (fun hn => narrowU_get ufs i _ _ _ _ _ (by simpa [narrowDT] using hnar hn) hufs) hwc hsc hshc hpc hdc (hsmc hsm)
       exact interpDT_tupleVariant ext ufs mode n md _ i _ xs _ fname fdt fn fmd lvc hufs this
     | bytes _ ty _ _ _ => simp only [push, ctx_ok] at h; split at h <;> simp [notSupported, fail] at h
     | bytesView _ ty _ _ _ => simp only [push, ctx_ok] at h; split at h <;> simp [notSupported, fail] at h
     | _ => simp [push, ctx_ok, notSupported, fail] at h
   | .structVariant _ i _ fields, b, b', dt, n, md, lv, hraw, hnar, hwf, hs, hsh, h, hd, hsm => by
-    have hraw' : ssaF fields = true := by simpa [structStreamsAlternate] using hraw
+    have hraw' : rawOKf nar fields = true := by simpa only [rawOK_some, rawOK_newtypeStruct, rawOK_newtypeVariant, rawOK_seq, rawOK_tuple, rawOK_tupleStruct, rawOK_tupleVariant, rawOK_record, rawOK_structVariant, rawOK_map, rawOK_mapRaw, rawOKs_cons, rawOKf_cons, rawOKe_cons, Bool.and_eq_true] using hraw
     cases b with
     | union p fs types offs cur =>
       simp only [push, ctx_ok] at h
@@ -497,9 +474,9 @@ theorem push_interp (ext : Ext) : ∀ (x : SVal) (b b' : B) (dt : DataType) (n :
           refine struct_interp _ hwc hsc hsl (pushFields_appends ext fields)
             (fun s1 s2 hp => pushFields_takeRest ext fields s1 s2 hp) ?_ hpc hdc (hsmc hsm)
           intro s1 s2 adds2 _ hf1 hm1 hm2 hp hsm2 j f hj
-          have hnc := narrowU_get ufs i _ _ _ _ _ (by simpa [narrowDT] using hnar) hufs
-          obtain ⟨found, hf, ha⟩ := pushFields_interp ext fields fs' s1 s2 _ adds2 sfs hraw'
-            (by simp only [narrowDT, Bool.and_eq_true] at hnc; exact hnc.2) hm1 hm2 (by rw [hf1]; exact hsl) hp hsm2 j f hj
+          have hnc := fun hn => narrowU_get ufs i _ _ _ _ _ (by simpa [narrowDT] using hnar hn) hufs
+          obtain ⟨found, hf, ha⟩ := pushFields_interp ext nar fields fs' s1 s2 _ adds2 sfs hraw'
+            (fun hn => by have hnc := hnc hn; simp only [narrowDT, Bool.and_eq_true] at hnc; exact hnc.2) hm1 hm2 (by rw [hf1]; exact hsl) hp hsm2 j f hj
           rw [getD_replicate_nil, List.nil_append] at ha
           exact ⟨found, hf, ha⟩
         simp only [interpDT, hufs, isUnknownVariant, Bool.false_eq_true, if_false, this]
@@ -572,8 +549,8 @@ theorem push_interp (ext : Ext) : ∀ (x : SVal) (b b' : B) (dt : DataType) (n :
       subst this
       exact pushNone_interp _ b' dt n md hsh h
 
-theorem pushElems_interp (ext : Ext) : ∀ (xs : SVals), ssaS xs = true →
-    ElemsSpec ext xs (fun large el offs => pushElems ext large el offs xs)
+theorem pushElems_interp (ext : Ext) (nar : Bool) : ∀ (xs : SVals), rawOKs nar xs = true →
+    ElemsSpec ext (nar = true) xs (fun large el offs => pushElems ext large el offs xs)
   | .nil, _ => by
     intro large el offs r cdt cn cmd ls _ _ _ _ h hd _
     simp only [pushElems] at h; cases h
@@ -581,7 +558,7 @@ theorem pushElems_interp (ext : Ext) : ∀ (xs : SVals), ssaS xs = true →
     subst this; simp [interpAll]
   | .cons x rest, hraw => by
     intro large el offs r cdt cn cmd ls hnc hwf hs hsh h hd hsm
-    have hraw' : structStreamsAlternate x = true ∧ ssaS rest = true := by simpa [ssaS] using hraw
+    have hraw' : rawOK nar x = true ∧ rawOKs nar rest = true := by simpa only [rawOK_some, rawOK_newtypeStruct, rawOK_newtypeVariant, rawOK_seq, rawOK_tuple, rawOK_tupleStruct, rawOK_tupleVariant, rawOK_record, rawOK_structVariant, rawOK_map, rawOK_mapRaw, rawOKs_cons, rawOKf_cons, rawOKe_cons, Bool.and_eq_true] using hraw
     simp only [pushElems] at h
     obtain ⟨o', h1, h⟩ := (bind_ok _ _ _).1 h
     obtain ⟨el', h2, h⟩ := (bind_ok _ _ _).1 h
@@ -593,17 +570,17 @@ theorem pushElems_interp (ext : Ext) : ∀ (xs : SVals), ssaS xs = true →
     have hs' := Safe.of_takeRest ht hs
     have hsh' := Shape.of_takeRest ht hsh
     obtain ⟨_, ls', hd', _⟩ := pushElems_appends ext rest large el' base (l + 1) r hel' hs' h
-    have hi := push_interp ext x el el' cdt cn cmd lv hraw'.1 hnc hwf hs hsh h2 hdec
+    have hi := push_interp ext nar x el el' cdt cn cmd lv hraw'.1 hnc hwf hs hsh h2 hdec
       (pushElems_small ext rest large el' _ r h hsm)
-    have ih := pushElems_interp ext rest hraw'.2 large el' _ r cdt cn cmd ls' hnc hel' hs' hsh' h hd' hsm
+    have ih := pushElems_interp ext nar rest hraw'.2 large el' _ r cdt cn cmd ls' hnc hel' hs' hsh' h hd' hsm
     have : ls = lv :: ls' := by
       rw [hd', hdec, List.append_assoc] at hd
       exact (List.append_cancel_left hd).symm
     subst this
     simp only [interpAll, hi, ih, bind, Except.bind]; rfl
 
-theorem pushCountElems_interp (ext : Ext) : ∀ (xs : SVals), ssaS xs = true →
-    CountSpec ext xs (fun el c => pushCountElems ext el c xs)
+theorem pushCountElems_interp (ext : Ext) (nar : Bool) : ∀ (xs : SVals), rawOKs nar xs = true →
+    CountSpec ext (nar = true) xs (fun el c => pushCountElems ext el c xs)
   | .nil, _ => by
     intro el c r cdt cn cmd ls _ _ _ _ h hd _
     simp only [pushCountElems] at h; cases h
@@ -611,7 +588,7 @@ theorem pushCountElems_interp (ext : Ext) : ∀ (xs : SVals), ssaS xs = true →
     subst this; simp [interpAll]
   | .cons x rest, hraw => by
     intro el c r cdt cn cmd ls hnc hwf hs hsh h hd hsm
-    have hraw' : structStreamsAlternate x = true ∧ ssaS rest = true := by simpa [ssaS] using hraw
+    have hraw' : rawOK nar x = true ∧ rawOKs nar rest = true := by simpa only [rawOK_some, rawOK_newtypeStruct, rawOK_newtypeVariant, rawOK_seq, rawOK_tuple, rawOK_tupleStruct, rawOK_tupleVariant, rawOK_record, rawOK_structVariant, rawOK_map, rawOK_mapRaw, rawOKs_cons, rawOKf_cons, rawOKe_cons, Bool.and_eq_true] using hraw
     simp only [pushCountElems] at h
     obtain ⟨el', h2, h⟩ := (bind_ok _ _ _).1 h
     obtain ⟨hel', lv, hdec⟩ := push_appends ext x el el' hwf hs h2
@@ -619,9 +596,9 @@ theorem pushCountElems_interp (ext : Ext) : ∀ (xs : SVals), ssaS xs = true →
     have hs' := Safe.of_takeRest ht hs
     have hsh' := Shape.of_takeRest ht hsh
     obtain ⟨_, ls', hd', _⟩ := pushCountElems_appends ext rest el' (c + 1) r hel' hs' h
-    have hi := push_interp ext x el el' cdt cn cmd lv hraw'.1 hnc hwf hs hsh h2 hdec
+    have hi := push_interp ext nar x el el' cdt cn cmd lv hraw'.1 hnc hwf hs hsh h2 hdec
       (pushCountElems_small ext rest el' _ r h hsm)
-    have ih := pushCountElems_interp ext rest hraw'.2 el' _ r cdt cn cmd ls' hnc hel' hs' hsh' h hd' hsm
+    have ih := pushCountElems_interp ext nar rest hraw'.2 el' _ r cdt cn cmd ls' hnc hel' hs' hsh' h hd' hsm
     have : ls = lv :: ls' := by
       rw [hd', hdec, List.append_assoc] at hd
       exact (List.append_cancel_left hd).symm
@@ -629,8 +606,8 @@ theorem pushCountElems_interp (ext : Ext) : ∀ (xs : SVals), ssaS xs = true →
     simp only [interpAll, hi, ih, bind, Except.bind]; rfl
 
 /-- positional records: field `j ≥ next` receives element `j - next`, fields before `next` are not touched -/
-theorem pushTupleElems_interp (ext : Ext) : ∀ (xs : SVals) (fs0 : BL) (s s' : SS) (adds adds' : List (List LVal))
-    (sfs : Fields), ssaS xs = true → narrowFs sfs = true → Mid fs0 s adds → Mid fs0 s' adds' → ShapeL s.fields sfs →
+theorem pushTupleElems_interp (ext : Ext) (nar : Bool) : ∀ (xs : SVals) (fs0 : BL) (s s' : SS) (adds adds' : List (List LVal))
+    (sfs : Fields), rawOKs nar xs = true → (nar = true → narrowFs sfs = true) → Mid fs0 s adds → Mid fs0 s' adds' → ShapeL s.fields sfs →
     pushTupleElems ext s xs = .ok s' → ViewSmallL s'.fields →
     ∀ j f, sfs.toList[j]? = some f → (j < s.next → adds'.getD j [] = adds.getD j []) ∧
       (s.next ≤ j → ∃ found, interpNth ext f.dataType f.nullable f.metadata (j - s.next) xs = .ok found ∧
@@ -641,7 +618,7 @@ theorem pushTupleElems_interp (ext : Ext) : ∀ (xs : SVals) (fs0 : BL) (s s' : 
     intro j f _
     exact ⟨fun _ => rfl, fun _ => ⟨[], by simp [interpNth], by simp⟩⟩
   | .cons x rest, fs0, s, s', adds, adds', sfs, hraw, hnf, hm, hm', hsl, h, hsm => by
-    have hraw' : structStreamsAlternate x = true ∧ ssaS rest = true := by simpa [ssaS] using hraw
+    have hraw' : rawOK nar x = true ∧ rawOKs nar rest = true := by simpa only [rawOK_some, rawOK_newtypeStruct, rawOK_newtypeVariant, rawOK_seq, rawOK_tuple, rawOK_tupleStruct, rawOK_tupleVariant, rawOK_record, rawOK_structVariant, rawOK_map, rawOK_mapRaw, rawOKs_cons, rawOKf_cons, rawOKe_cons, Bool.and_eq_true] using hraw
     simp only [pushTupleElems] at h
     split at h
     · rename_i hlt
@@ -653,10 +630,10 @@ theorem pushTupleElems_interp (ext : Ext) : ∀ (xs : SVals) (fs0 : BL) (s s' : 
         have := pushTupleElems_small ext rest s1 s' h hsm
         rw [hfs1] at this
         exact ViewSmallL_set_get _ _ c c' m hget this
-      have hlv := push_interp ext x c c' _ _ _ lv hraw'.1 (narrowFs_get sfs _ fi hnf hji) hwc hsc hshc hpc hdec hsm1
+      have hlv := push_interp ext nar x c c' _ _ _ lv hraw'.1 (fun hn => narrowFs_get sfs _ fi (hnf hn) hji) hwc hsc hshc hpc hdec hsm1
       have hsl1 : ShapeL s1.fields sfs := by
         rw [hfs1]; exact ShapeL.set_push hsl hget (push_takeRest ext x c c' hpc)
-      have ih := pushTupleElems_interp ext rest fs0 s1 s' _ adds' sfs hraw'.2 hnf hm1 hm' hsl1 h hsm
+      have ih := pushTupleElems_interp ext nar rest fs0 s1 s' _ adds' sfs hraw'.2 hnf hm1 hm' hsl1 h hsm
       intro j f hj
       obtain ⟨ih1, ih2⟩ := ih j f hj
       rw [hnext] at ih1 ih2
@@ -682,7 +659,7 @@ theorem pushTupleElems_interp (ext : Ext) : ∀ (xs : SVals) (fs0 : BL) (s s' : 
           rw [this]
           simp only [interpNth]; exact hf
     · rename_i hge
-      have ih := pushTupleElems_interp ext rest fs0 s s' adds adds' sfs hraw'.2 hnf hm hm' hsl h hsm
+      have ih := pushTupleElems_interp ext nar rest fs0 s s' adds adds' sfs hraw'.2 hnf hm hm' hsl h hsm
       intro j f hj
       obtain ⟨ih1, _⟩ := ih j f hj
       have hjlt : j < s.fields.length := by
@@ -692,8 +669,8 @@ theorem pushTupleElems_interp (ext : Ext) : ∀ (xs : SVals) (fs0 : BL) (s s' : 
         · rw [List.getElem?_eq_none_iff.mpr h] at hj; cases hj
       exact ⟨ih1, fun hle => absurd hjlt (by omega)⟩
 
-theorem pushFields_interp (ext : Ext) : ∀ (fields : SFields) (fs0 : BL) (s s' : SS) (adds adds' : List (List LVal))
-    (sfs : Fields), ssaF fields = true → narrowFs sfs = true → Mid fs0 s adds → Mid fs0 s' adds' → ShapeL s.fields sfs →
+theorem pushFields_interp (ext : Ext) (nar : Bool) : ∀ (fields : SFields) (fs0 : BL) (s s' : SS) (adds adds' : List (List LVal))
+    (sfs : Fields), rawOKf nar fields = true → (nar = true → narrowFs sfs = true) → Mid fs0 s adds → Mid fs0 s' adds' → ShapeL s.fields sfs →
     pushFields ext s fields = .ok s' → ViewSmallL s'.fields →
     ∀ j f, sfs.toList[j]? = some f → ∃ found,
       interpByName ext f.name f.dataType f.nullable f.metadata fields = .ok found ∧
@@ -704,14 +681,14 @@ theorem pushFields_interp (ext : Ext) : ∀ (fields : SFields) (fs0 : BL) (s s' 
     intro j f _
     exact ⟨[], by simp [interpByName], by simp⟩
   | .cons key al x rest, fs0, s, s', adds, adds', sfs, hraw, hnf, hm, hm', hsl, h, hsm => by
-    have hraw' : structStreamsAlternate x = true ∧ ssaF rest = true := by simpa [ssaF] using hraw
+    have hraw' : rawOK nar x = true ∧ rawOKf nar rest = true := by simpa only [rawOK_some, rawOK_newtypeStruct, rawOK_newtypeVariant, rawOK_seq, rawOK_tuple, rawOK_tupleStruct, rawOK_tupleVariant, rawOK_record, rawOK_structVariant, rawOK_map, rawOK_mapRaw, rawOKs_cons, rawOKf_cons, rawOKe_cons, Bool.and_eq_true] using hraw
     simp only [pushFields] at h
     have hls := SaModel.Props.C11Front.lookup_sound s.fields.names s.cached s.next (key, al) hm.nodup hm.cache
     split at h
     · rename_i cached' heq
       rw [heq] at hls
       have hnone : indexOfName s.fields.names key = none := hls.1.symm
-      have ih := pushFields_interp ext rest fs0 _ s' adds adds' sfs hraw'.2 hnf (hm.cached cached' hls.2) hm' hsl h hsm
+      have ih := pushFields_interp ext nar rest fs0 _ s' adds adds' sfs hraw'.2 hnf (hm.cached cached' hls.2) hm' hsl h hsm
       intro j f hj
       obtain ⟨found, hf, ha⟩ := ih j f hj
       refine ⟨found, ?_, ha⟩
@@ -730,10 +707,10 @@ theorem pushFields_interp (ext : Ext) : ∀ (fields : SFields) (fs0 : BL) (s s' 
         have := pushFields_small ext rest s1 s' h hsm
         rw [hfs1] at this
         exact ViewSmallL_set_get _ _ c c' m hget this
-      have hlv := push_interp ext x c c' _ _ _ lv hraw'.1 (narrowFs_get sfs _ fi hnf hji) hwc hsc hshc hpc hdec hsm1
+      have hlv := push_interp ext nar x c c' _ _ _ lv hraw'.1 (fun hn => narrowFs_get sfs _ fi (hnf hn) hji) hwc hsc hshc hpc hdec hsm1
       have hsl1 : ShapeL s1.fields sfs := by
         rw [hfs1]; exact ShapeL.set_push hsl hget (push_takeRest ext x c c' hpc)
-      have ih := pushFields_interp ext rest fs0 s1 s' _ adds' sfs hraw'.2 hnf hm1 hm' hsl1 h hsm
+      have ih := pushFields_interp ext nar rest fs0 s1 s' _ adds' sfs hraw'.2 hnf hm1 hm' hsl1 h hsm
       intro j f hj
       obtain ⟨found, hf, ha⟩ := ih j f hj
       rw [getD_set _ _ _ _ _ hlta] at ha
@@ -750,8 +727,8 @@ theorem pushFields_interp (ext : Ext) : ∀ (fields : SFields) (fs0 : BL) (s s' 
         simp only [hij, decide_false] at hk
         simp only [interpByName, hf, bind, Except.bind, hk]; rfl
 
-theorem pushStructEntries_interp (ext : Ext) : ∀ (es : SEntries) (fs0 : BL) (s s' : SS) (adds adds' : List (List LVal))
-    (sfs : Fields), ssaE es = true → narrowFs sfs = true → Mid fs0 s adds → Mid fs0 s' adds' → ShapeL s.fields sfs →
+theorem pushStructEntries_interp (ext : Ext) (nar : Bool) : ∀ (es : SEntries) (fs0 : BL) (s s' : SS) (adds adds' : List (List LVal))
+    (sfs : Fields), rawOKe nar es = true → (nar = true → narrowFs sfs = true) → Mid fs0 s adds → Mid fs0 s' adds' → ShapeL s.fields sfs →
     pushStructEntries ext s es = .ok s' → ViewSmallL s'.fields →
     ∀ j f, sfs.toList[j]? = some f → ∃ found,
       interpByKey ext f.name f.dataType f.nullable f.metadata es = .ok found ∧
@@ -762,14 +739,14 @@ theorem pushStructEntries_interp (ext : Ext) : ∀ (es : SEntries) (fs0 : BL) (s
     intro j f _
     exact ⟨[], by simp [interpByKey], by simp⟩
   | .cons k x rest, fs0, s, s', adds, adds', sfs, hraw, hnf, hm, hm', hsl, h, hsm => by
-    have hraw' : (structStreamsAlternate k = true ∧ structStreamsAlternate x = true) ∧ ssaE rest = true := by simpa [ssaE] using hraw
+    have hraw' : (rawOK nar k = true ∧ rawOK nar x = true) ∧ rawOKe nar rest = true := by simpa only [rawOK_some, rawOK_newtypeStruct, rawOK_newtypeVariant, rawOK_seq, rawOK_tuple, rawOK_tupleStruct, rawOK_tupleVariant, rawOK_record, rawOK_structVariant, rawOK_map, rawOK_mapRaw, rawOKs_cons, rawOKf_cons, rawOKe_cons, Bool.and_eq_true] using hraw
     simp only [pushStructEntries] at h
     obtain ⟨key, hkey, h⟩ := (bind_ok _ _ _).1 h
     have hopt : ∀ fname : String, ((keyStr k).toOption == some fname) = (key == fname) := by
       intro fname; rw [hkey]; simp [Except.toOption]
     split at h
     · rename_i hnone
-      have ih := pushStructEntries_interp ext rest fs0 _ s' adds adds' sfs hraw'.2 hnf (hm.next UNKNOWN_KEY) hm' hsl h hsm
+      have ih := pushStructEntries_interp ext nar rest fs0 _ s' adds adds' sfs hraw'.2 hnf (hm.next UNKNOWN_KEY) hm' hsl h hsm
       intro j f hj
       obtain ⟨found, hf, ha⟩ := ih j f hj
       refine ⟨found, ?_, ha⟩
@@ -785,10 +762,10 @@ theorem pushStructEntries_interp (ext : Ext) : ∀ (es : SEntries) (fs0 : BL) (s
         simp only at this
         rw [hfs1] at this
         exact ViewSmallL_set_get _ _ c c' m hget this
-      have hlv := push_interp ext x c c' _ _ _ lv hraw'.1.2 (narrowFs_get sfs _ fi hnf hji) hwc hsc hshc hpc hdec hsm1
+      have hlv := push_interp ext nar x c c' _ _ _ lv hraw'.1.2 (fun hn => narrowFs_get sfs _ fi (hnf hn) hji) hwc hsc hshc hpc hdec hsm1
       have hsl1 : ShapeL s1.fields sfs := by
         rw [hfs1]; exact ShapeL.set_push hsl hget (push_takeRest ext x c c' hpc)
-      have ih := pushStructEntries_interp ext rest fs0 _ s' _ adds' sfs hraw'.2 hnf (hm1.next UNKNOWN_KEY) hm' hsl1 h hsm
+      have ih := pushStructEntries_interp ext nar rest fs0 _ s' _ adds' sfs hraw'.2 hnf (hm1.next UNKNOWN_KEY) hm' hsl1 h hsm
       intro j f hj
       obtain ⟨found, hf, ha⟩ := ih j f hj
       rw [getD_set _ _ _ _ _ hlta] at ha
@@ -807,23 +784,23 @@ theorem pushStructEntries_interp (ext : Ext) : ∀ (es : SEntries) (fs0 : BL) (s
 
 /-- a struct builder receiving a raw key/value call stream that alternates: the fields gather what the pairs give
 them by key (`fields.length < UNKNOWN_KEY`: no field index is the sentinel) -/
-theorem pushStructOps_interp (ext : Ext) : ∀ (ops : SMapOps) (fs0 : BL) (s s' : SS) (adds adds' : List (List LVal))
-    (sfs : Fields), ssaO ops = true → narrowFs sfs = true → s.fields.length < UNKNOWN_KEY → Mid fs0 s adds →
+theorem pushStructOps_interp (ext : Ext) (nar : Bool) : ∀ (ops : SMapOps) (fs0 : BL) (s s' : SS) (adds adds' : List (List LVal))
+    (sfs : Fields), nar = true → ssaO ops = true → narrowFs sfs = true → s.fields.length < UNKNOWN_KEY → Mid fs0 s adds →
     Mid fs0 s' adds' → ShapeL s.fields sfs → pushStructOps ext s ops = .ok s' → ViewSmallL s'.fields →
     ∀ j f, sfs.toList[j]? = some f → ∃ found,
       interpByKeyOps ext f.name f.dataType f.nullable f.metadata ops = .ok found ∧
       adds'.getD j [] = adds.getD j [] ++ found
-  | .nil, fs0, s, s', adds, adds', sfs, _, _, _, hm, hm', _, h, _ => by
+  | .nil, fs0, s, s', adds, adds', sfs, _, _, _, _, hm, hm', _, h, _ => by
     simp only [pushStructOps] at h; cases h
     have := hm.unique hm'; subst this
     intro j f _
     exact ⟨[], by simp [interpByKeyOps], by simp⟩
-  | .key _ .nil, _, _, _, _, _, _, hraw, _, _, _, _, _, _, _ => by simp [ssaO] at hraw
-  | .key _ (.key _ _), _, _, _, _, _, _, hraw, _, _, _, _, _, _, _ => by simp [ssaO] at hraw
-  | .value _ _, _, _, _, _, _, _, hraw, _, _, _, _, _, _, _ => by simp [ssaO] at hraw
-  | .key k (.value x rest), fs0, s, s', adds, adds', sfs, hraw, hnf, hlen, hm, hm', hsl, h, hsm => by
-    have hraw' : (structStreamsAlternate k = true ∧ structStreamsAlternate x = true) ∧ ssaO rest = true := by
-      simpa [ssaO] using hraw
+  | .key _ .nil, _, _, _, _, _, _, _, hraw, _, _, _, _, _, _, _ => by simp [ssaO] at hraw
+  | .key _ (.key _ _), _, _, _, _, _, _, _, hraw, _, _, _, _, _, _, _ => by simp [ssaO] at hraw
+  | .value _ _, _, _, _, _, _, _, _, hraw, _, _, _, _, _, _, _ => by simp [ssaO] at hraw
+  | .key k (.value x rest), fs0, s, s', adds, adds', sfs, hn, hraw, hnf, hlen, hm, hm', hsl, h, hsm => by
+    have hraw' : (rawOK nar k = true ∧ rawOK nar x = true) ∧ ssaO rest = true := by
+      subst hn; simpa [ssaO, rawOK] using hraw
     rw [pushStructOps] at h
     obtain ⟨key, hkey, h⟩ := (bind_ok _ _ _).1 h
     have hopt : ∀ fname : String, ((keyStr k).toOption == some fname) = (key == fname) := by
@@ -832,7 +809,7 @@ theorem pushStructOps_interp (ext : Ext) : ∀ (ops : SMapOps) (fs0 : BL) (s s' 
     cases hidx : indexOfName s.fields.names key with
     | none =>
       simp only [hidx, Option.getD_none, bne_self_eq_false, Bool.false_eq_true, if_false] at h
-      have ih := pushStructOps_interp ext rest fs0 { s with next := UNKNOWN_KEY } s' adds adds' sfs hraw'.2 hnf hlen
+      have ih := pushStructOps_interp ext nar rest fs0 { s with next := UNKNOWN_KEY } s' adds adds' sfs hn hraw'.2 hnf hlen
         (hm.next UNKNOWN_KEY) hm' hsl h hsm
       intro j f hj
       obtain ⟨found, hf, ha⟩ := ih j f hj
@@ -853,11 +830,11 @@ theorem pushStructOps_interp (ext : Ext) : ∀ (ops : SMapOps) (fs0 : BL) (s s' 
         simp only at this
         rw [hfs1] at this
         exact ViewSmallL_set_get _ _ c c' m hget this
-      have hlv := push_interp ext x c c' _ _ _ lv hraw'.1.2 (narrowFs_get sfs _ fi hnf hji) hwc hsc hshc hpc hdec hsm1
+      have hlv := push_interp ext nar x c c' _ _ _ lv hraw'.1.2 (fun _ => narrowFs_get sfs _ fi hnf hji) hwc hsc hshc hpc hdec hsm1
       have hsl1 : ShapeL s1.fields sfs := by
         rw [hfs1]; exact ShapeL.set_push hsl hget (push_takeRest ext x c c' hpc)
       have hlen1 : s1.fields.length < UNKNOWN_KEY := by rw [hfs1, BL.length_set]; exact hlen
-      have ih := pushStructOps_interp ext rest fs0 { s1 with next := UNKNOWN_KEY } s' _ adds' sfs hraw'.2 hnf hlen1
+      have ih := pushStructOps_interp ext nar rest fs0 { s1 with next := UNKNOWN_KEY } s' _ adds' sfs hn hraw'.2 hnf hlen1
         (hm1.next UNKNOWN_KEY) hm' hsl1 h hsm
       intro j f hj
       obtain ⟨found, hf, ha⟩ := ih j f hj
@@ -876,23 +853,23 @@ theorem pushStructOps_interp (ext : Ext) : ∀ (ops : SMapOps) (fs0 : BL) (s s' 
         simp only [interpByKeyOps, hf, bind, Except.bind, hopt, hk]; rfl
 
 /-- a Map builder receiving a raw key/value call stream (accepted ⇒ alternating): entry by entry -/
-theorem pushMapOps_interp (ext : Ext) : ∀ (ops : SMapOps) (offs : List Int) (ks vs : B) (r : List Int × B × B)
+theorem pushMapOps_interp (ext : Ext) (nar : Bool) : ∀ (ops : SMapOps) (offs : List Int) (ks vs : B) (r : List Int × B × B)
     (kdt : DataType) (kn : Bool) (kmd : Metadata) (vdt : DataType) (vn : Bool) (vmd : Metadata) (lk lw : List LVal),
-    ssaO ops = true → narrowDT kdt = true → narrowDT vdt = true → WFB ks → WFB vs → Safe ks → Safe vs →
+    nar = true → ssaO ops = true → narrowDT kdt = true → narrowDT vdt = true → WFB ks → WFB vs → Safe ks → Safe vs →
     Shape ks kdt kn kmd → Shape vs vdt vn vmd →
     pushMapOps ext false offs ks vs ops = .ok r → dec r.2.1 = dec ks ++ lk → dec r.2.2 = dec vs ++ lw →
     ViewSmall r.2.1 ∧ ViewSmall r.2.2 → interpOps ext kdt kn kmd vdt vn vmd ops = .ok (lk.zip lw)
-  | .nil, offs, ks, vs, r, kdt, kn, kmd, vdt, vn, vmd, lk, lw, _, _, _, _, _, _, _, _, _, h, hdk, hdv, _ => by
+  | .nil, offs, ks, vs, r, kdt, kn, kmd, vdt, vn, vmd, lk, lw, _, _, _, _, _, _, _, _, _, _, h, hdk, hdv, _ => by
     obtain ⟨_, rfl⟩ := pushMapOps_nil_ok h
     have : lk = [] := by simpa using hdk
     subst this
     simp [interpOps]
-  | .key _ .nil, _, _, _, _, _, _, _, _, _, _, _, _, hraw, _, _, _, _, _, _, _, _, _, _, _, _ => by simp [ssaO] at hraw
-  | .key _ (.key _ _), _, _, _, _, _, _, _, _, _, _, _, _, hraw, _, _, _, _, _, _, _, _, _, _, _, _ => by simp [ssaO] at hraw
-  | .value _ _, _, _, _, _, _, _, _, _, _, _, _, _, hraw, _, _, _, _, _, _, _, _, _, _, _, _ => by simp [ssaO] at hraw
-  | .key k (.value x rest), offs, ks, vs, r, kdt, kn, kmd, vdt, vn, vmd, lk, lw, hraw, hnk, hnv, hk, hv, hsk, hsv, hshk, hshv, h, hdk, hdv, hsm => by
-    have hraw' : (structStreamsAlternate k = true ∧ structStreamsAlternate x = true) ∧ ssaO rest = true := by
-      simpa [ssaO] using hraw
+  | .key _ .nil, _, _, _, _, _, _, _, _, _, _, _, _, _, hraw, _, _, _, _, _, _, _, _, _, _, _, _ => by simp [ssaO] at hraw
+  | .key _ (.key _ _), _, _, _, _, _, _, _, _, _, _, _, _, _, hraw, _, _, _, _, _, _, _, _, _, _, _, _ => by simp [ssaO] at hraw
+  | .value _ _, _, _, _, _, _, _, _, _, _, _, _, _, _, hraw, _, _, _, _, _, _, _, _, _, _, _, _ => by simp [ssaO] at hraw
+  | .key k (.value x rest), offs, ks, vs, r, kdt, kn, kmd, vdt, vn, vmd, lk, lw, hn, hraw, hnk, hnv, hk, hv, hsk, hsv, hshk, hshv, h, hdk, hdv, hsm => by
+    have hraw' : (rawOK nar k = true ∧ rawOK nar x = true) ∧ ssaO rest = true := by
+      subst hn; simpa [ssaO, rawOK] using hraw
     obtain ⟨_, o', ks', h1, h2, h⟩ := pushMapOps_key_ok h
     obtain ⟨_, vs', h3, h⟩ := pushMapOps_value_ok h
     obtain ⟨base, l, rfl⟩ := incrementLast_form h1
@@ -905,9 +882,9 @@ theorem pushMapOps_interp (ext : Ext) : ∀ (ops : SMapOps) (offs : List Int) (k
     obtain ⟨_, _, lk', lw', _, gk, gv, _⟩ := pushMapOps_appends_gen ext rest false base (l + 1) ks' vs' r
       hk' hv' (Safe.of_takeRest htk hsk) (Safe.of_takeRest htv hsv) h
     have hsm1 := pushMapOps_small ext rest false _ ks' vs' r h hsm
-    have hik := push_interp ext k ks ks' kdt kn kmd lk0 hraw'.1.1 hnk hk hsk hshk h2 hdk0 hsm1.1
-    have hiv := push_interp ext x vs vs' vdt vn vmd lv0 hraw'.1.2 hnv hv hsv hshv h3 hdv0 hsm1.2
-    have ih := pushMapOps_interp ext rest _ ks' vs' r kdt kn kmd vdt vn vmd lk' lw' hraw'.2 hnk hnv hk' hv'
+    have hik := push_interp ext nar k ks ks' kdt kn kmd lk0 hraw'.1.1 (fun _ => hnk) hk hsk hshk h2 hdk0 hsm1.1
+    have hiv := push_interp ext nar x vs vs' vdt vn vmd lv0 hraw'.1.2 (fun _ => hnv) hv hsv hshv h3 hdv0 hsm1.2
+    have ih := pushMapOps_interp ext nar rest _ ks' vs' r kdt kn kmd vdt vn vmd lk' lw' hn hraw'.2 hnk hnv hk' hv'
       (Safe.of_takeRest htk hsk) (Safe.of_takeRest htv hsv) (Shape.of_takeRest htk hshk) (Shape.of_takeRest htv hshv) h gk gv hsm
     have e1 : lk = lk0 :: lk' := by
       rw [gk, hdk0, List.append_assoc] at hdk
@@ -918,9 +895,9 @@ theorem pushMapOps_interp (ext : Ext) : ∀ (ops : SMapOps) (offs : List Int) (k
     subst e1 e2
     simp only [interpOps, hik, hiv, ih, bind, Except.bind]; rfl
 
-theorem pushMapEntries_interp (ext : Ext) : ∀ (es : SEntries) (offs : List Int) (ks vs : B) (r : List Int × B × B)
+theorem pushMapEntries_interp (ext : Ext) (nar : Bool) : ∀ (es : SEntries) (offs : List Int) (ks vs : B) (r : List Int × B × B)
     (kdt : DataType) (kn : Bool) (kmd : Metadata) (vdt : DataType) (vn : Bool) (vmd : Metadata) (lk lw : List LVal),
-    ssaE es = true → narrowDT kdt = true → narrowDT vdt = true → WFB ks → WFB vs → Safe ks → Safe vs →
+    rawOKe nar es = true → (nar = true → narrowDT kdt = true) → (nar = true → narrowDT vdt = true) → WFB ks → WFB vs → Safe ks → Safe vs →
     Shape ks kdt kn kmd → Shape vs vdt vn vmd →
     pushMapEntries ext offs ks vs es = .ok r → dec r.2.1 = dec ks ++ lk → dec r.2.2 = dec vs ++ lw →
     ViewSmall r.2.1 ∧ ViewSmall r.2.2 → interpEntries ext kdt kn kmd vdt vn vmd es = .ok (lk.zip lw)
@@ -930,7 +907,7 @@ theorem pushMapEntries_interp (ext : Ext) : ∀ (es : SEntries) (offs : List Int
     subst this
     simp [interpEntries]
   | .cons k x rest, offs, ks, vs, r, kdt, kn, kmd, vdt, vn, vmd, lk, lw, hraw, hnk, hnv, hk, hv, hsk, hsv, hshk, hshv, h, hdk, hdv, hsm => by
-    have hraw' : (structStreamsAlternate k = true ∧ structStreamsAlternate x = true) ∧ ssaE rest = true := by simpa [ssaE] using hraw
+    have hraw' : (rawOK nar k = true ∧ rawOK nar x = true) ∧ rawOKe nar rest = true := by simpa only [rawOK_some, rawOK_newtypeStruct, rawOK_newtypeVariant, rawOK_seq, rawOK_tuple, rawOK_tupleStruct, rawOK_tupleVariant, rawOK_record, rawOK_structVariant, rawOK_map, rawOK_mapRaw, rawOKs_cons, rawOKf_cons, rawOKe_cons, Bool.and_eq_true] using hraw
     simp only [pushMapEntries] at h
     obtain ⟨o', h1, h⟩ := (bind_ok _ _ _).1 h
     obtain ⟨ks', h2, h⟩ := (bind_ok _ _ _).1 h
@@ -945,9 +922,9 @@ theorem pushMapEntries_interp (ext : Ext) : ∀ (es : SEntries) (offs : List Int
     obtain ⟨_, _, lk', lw', _, gk, gv, _⟩ := pushMapEntries_appends ext rest base (l + 1) ks' vs' r
       hk' hv' (Safe.of_takeRest htk hsk) (Safe.of_takeRest htv hsv) h
     have hsm1 := pushMapEntries_small ext rest _ ks' vs' r h hsm
-    have hik := push_interp ext k ks ks' kdt kn kmd lk0 hraw'.1.1 hnk hk hsk hshk h2 hdk0 hsm1.1
-    have hiv := push_interp ext x vs vs' vdt vn vmd lv0 hraw'.1.2 hnv hv hsv hshv h3 hdv0 hsm1.2
-    have ih := pushMapEntries_interp ext rest _ ks' vs' r kdt kn kmd vdt vn vmd lk' lw' hraw'.2 hnk hnv hk' hv'
+    have hik := push_interp ext nar k ks ks' kdt kn kmd lk0 hraw'.1.1 hnk hk hsk hshk h2 hdk0 hsm1.1
+    have hiv := push_interp ext nar x vs vs' vdt vn vmd lv0 hraw'.1.2 hnv hv hsv hshv h3 hdv0 hsm1.2
+    have ih := pushMapEntries_interp ext nar rest _ ks' vs' r kdt kn kmd vdt vn vmd lk' lw' hraw'.2 hnk hnv hk' hv'
       (Safe.of_takeRest htk hsk) (Safe.of_takeRest htv hsv) (Shape.of_takeRest htk hshk) (Shape.of_takeRest htv hshv) h gk gv hsm
     have e1 : lk = lk0 :: lk' := by
       rw [gk, hdk0, List.append_assoc] at hdk
